@@ -7,7 +7,7 @@ use super::common::*;
 use super::Case;
 use crate::build::build_options;
 use crate::deriv::{sentence, DashDash, Gen, OrderStyle, SpellStyle};
-use crate::gen::{gen_options, GenOpts};
+use crate::gen::GenOpts;
 use crate::json::J;
 use crate::outcome::*;
 
@@ -44,7 +44,17 @@ fn mode_class(mode: &str) -> &str {
 pub fn run_case(case: &mut Case) {
     let mut rng = case.rng(0);
     LONG_ITEM_MAX.with(|m| m.set(if case.thorough { 4096 } else { 1200 }));
-    let spec = gen_options(&mut rng, opts());
+    let spec = {
+        let o = opts();
+        let depth = o.cmd_depth;
+        let mut p = crate::gen::Pool::new(&mut rng, o);
+        let mut spec = p.level(depth);
+        // definitions in which a cluster can be ambiguous are invariant-respecting too
+        if p.rng.chance(1, 4) {
+            p.inject_ambiguous(&mut spec);
+        }
+        spec
+    };
     let h = spec.hash64();
     case.rep.definition(h);
     let parser = build_options(&spec);
